@@ -79,6 +79,9 @@ def sanity(block):
     import pyrtl
     try:
         block.sanity_check()
+        # sanity_check does not look for combinational loops; iterating the block does
+        for _net in block:
+            pass
     except (pyrtl.PyrtlError, pyrtl.PyrtlInternalError) as e:
         return repr(e)[:300]
     return None
